@@ -88,15 +88,10 @@ def outranks (k d : Hit) : Bool := decide (d.sc ≤ k.sc)
 def collide (env : Env) (a b : Hit) : Bool :=
   if a.qs ≤ b.qs then !startsClear env a b || (a.qs == b.qs && !startsClear env b a) else !startsClear env b a
 
-/-- what is true of the greedy pass for every input: a dropped hit lost against a hit that
-    collided with it and outranked it (`beats`), which either is returned or lost in the same way
-    against another one, … , ending in a returned hit -/
-def beats (env : Env) (k d : Hit) : Bool :=
-  (!startsClear env k d && decide (d.sc ≤ k.sc)) || (!startsClear env d k && decide (d.sc < k.sc))
-
-inductive Dominated (env : Env) : Hit → Hit → Prop
-  | step {d k : Hit} : beats env k d = true → Dominated env d k
-  | trans {d m k : Hit} : beats env m d = true → Dominated env m k → Dominated env d k
+/-- `k` outranks `d` in the list `l`: the higher score, and of two equal scores the one that comes
+    first in `l` (the tie rule of the overlap pass) -/
+def RanksAbove (l : List Hit) (k d : Hit) : Prop :=
+  d.sc < k.sc ∨ (k.sc = d.sc ∧ ∃ i j : Nat, i < j ∧ l[i]? = some k ∧ l[j]? = some d)
 
 def droppedJustified (env : Env) (input out : List Hit) : Bool :=
   input.all fun d => out.contains d || out.any fun k => collide env k d && outranks k d
